@@ -16,6 +16,8 @@ pub mod checks;
 mod selftest;
 mod c01_builtin;
 mod c02_derived;
+#[cfg(any(kani, desert_verif_hooks))]
+mod c03_kernels;
 mod c05_total;
 #[cfg(any(kani, desert_verif_hooks))]
 mod c06_regions;
